@@ -68,7 +68,7 @@ package bbolt
 //@   props C18 C06 C08
 //@   requires db.pageSize >= 512 && db.pageSize <= 16777216 && db.rwtx != nil && db.rwtx.meta != nil && count >= 1 && count <= 4294967295
 //@   requires (db.rwtx.meta.pgid + count + 1) * db.pageSize <= 2305843009213693952 && db.AllocSize >= 0 && db.AllocSize <= 2305843009213693952 && db.datasz >= 0 && db.MaxSize >= 0
-//@   skip db.go:1173 because the page pool (sync.Pool with New = make([]byte, pageSize), set in Open) yields non-empty buffers; sync.Pool is outside the subset
+//@   skip =nopanic/index because the page pool (sync.Pool with New = make([]byte, pageSize), set in Open) yields non-empty buffers; sync.Pool is outside the subset
 //@   ensures [hwm] err == nil ==> db.rwtx.meta.pgid == old(db.rwtx.meta.pgid) || db.rwtx.meta.pgid == old(db.rwtx.meta.pgid) + count
 //@   ensures [maxsize] err == nil && db.MaxSize > 0 && db.rwtx.meta.pgid != old(db.rwtx.meta.pgid) ==> (db.rwtx.meta.pgid + 1) * db.pageSize <= db.MaxSize
 //@   ensures [mapped] err == nil && db.rwtx.meta.pgid != old(db.rwtx.meta.pgid) ==> (db.rwtx.meta.pgid + 1) * db.pageSize <= db.datasz
@@ -297,8 +297,6 @@ package bbolt
 //@   ensures [syncedonce] err == nil && !tx.db.NoSync ==> nsyncs == old(nsyncs) + 1
 //@   ensures [same] txframe(tx) && tx.meta.pgid == old(tx.meta.pgid) && tx.meta.freelist == old(tx.meta.freelist) && tx.meta.root.root == old(tx.meta.root.root)
 //@   ensures [map] old(mapok(tx)) ==> mapok(tx)
-//@   skip tx.go:544 because UnsafeByteSlice views the page buffer (A-unsafe); chunk sizes are bounded by MaxAllocSize-1 by construction
-//@   skip tx.go:577 because UnsafeByteSlice views the page buffer (A-unsafe)
 
 //@ func (*Tx).Check
 //@   opaque
@@ -479,6 +477,7 @@ package bbolt
 // loop invariants over the ghost call log (lastarg = arguments of the most recently returned call), so they
 // are proved for every iteration.
 //@ func (*Tx).recursivelyCheckPageKeyOrderInternal
+//@   ensures [txsame] txsame(tx)
 //@   returns (maxKeyInSubtree)
 //@   props C19 C07
 //@   requires tx != nil && tx.db != nil && tx.meta != nil
@@ -496,6 +495,87 @@ package bbolt
 //@   loop 1 invariant [running] rangeindex >= 0 ==> runningMin != nil && bytesval(runningMin) == lkeyof(lfelem(p, rangeindex))
 //@   loop 1 invariant [running0] rangeindex == 0-1 ==> (runningMin == nil) == old(minKeyClosed == nil) && (old(minKeyClosed != nil) ==> bytesval(runningMin) == old(bytesval(minKeyClosed)))
 //@   loop 1 invariant [count] callstotal("verifyKeyOrder") == entry(callstotal("verifyKeyOrder")) + rangeindex + 1
+
+// txsame: the walk never re-targets the transaction or moves the high-water mark it compares page ids with
+//@ pure func txsame(tx *Tx) bool = sameobjs("Tx.db") && sameobjs("Tx.meta") && sameobjs("common.Meta.pgid") && sameobjs("Bucket.tx") && sameobjs("Bucket.InBucket")
+
+// The reachability walk. Every bucket with a page of its own has ITS root page handed to checkInvariantProperties
+// (no "already seen" shortcut: a page referenced from two buckets must be reported, which only happens when the
+// second reference is walked too); checkInvariantProperties walks the page tree below it with verifyPageReachable
+// on every page and then checks the key order of the same tree; forEachPageInternal visits the page on top of
+// the stack before its children and descends into every branch element.
+//@ func (*Tx).checkInvariantProperties$1
+//@   ensures [txsame] txsame(tx)
+//@   props C19 C07
+//@   requires p != nil && reachable != nil && p.id + p.overflow + 1 <= 18446744073709551615
+//@   ensures [verified] callstotal("verifyPageReachable") == old(callstotal("verifyPageReachable")) + 1 && lastarg("verifyPageReachable", 0) == p && lastarg("verifyPageReachable", 1) == tx.meta.pgid && lastarg("verifyPageReachable", 3) == reachable && lastarg("verifyPageReachable", 4) == freed && lastarg("verifyPageReachable", 5) == ch
+
+//@ func (*Tx).forEachPage
+//@   opaque
+//@   invokes fn
+//@   ensures txsame(tx)     -- given that the callback keeps it (proved for checkInvariantProperties$1)
+//@   callback provides cbarg0 != nil && cbarg0.id + cbarg0.overflow + 1 <= 18446744073709551615     -- pages handed to the callback come from tx.page (A-tree: page ids are far below 2^63)
+//@   ensures tx.db == old(tx.db) && tx.meta == old(tx.meta)
+
+//@ func (*Tx).recursivelyCheckPageKeyOrder
+//@   ensures [txsame] txsame(tx)
+//@   props C19 C07
+//@   requires tx != nil && tx.db != nil && tx.meta != nil
+//@   ensures [root] callstotal("(*Tx).recursivelyCheckPageKeyOrderInternal") >= old(callstotal("(*Tx).recursivelyCheckPageKeyOrderInternal")) + 1
+//@   callsite recursivelyCheckPageKeyOrderInternal requires [unbounded] a_pgId == pgId && a_minKeyClosed == nil && a_maxKeyOpen == nil && a_ch == ch
+
+//@ func (*Tx).checkInvariantProperties
+//@   ensures [txsame] txsame(tx)
+//@   props C19 C07
+//@   requires tx != nil && tx.db != nil && tx.meta != nil && reachable != nil
+//@   ensures [walked] calls("(*Tx).forEachPage", tx) >= old(calls("(*Tx).forEachPage", tx)) + 1 && calls("(*Tx).recursivelyCheckPageKeyOrder", tx) >= old(calls("(*Tx).recursivelyCheckPageKeyOrder", tx)) + 1
+//@   callsite forEachPage requires [root] a_pgidnum == pageId
+//@   callsite recursivelyCheckPageKeyOrder requires [root] a_pgId == pageId && a_ch == ch
+
+//@ func (*Tx).recursivelyCheckBucket
+//@   ensures [txsame] txsame(tx)
+//@   props C19 C07
+//@   requires tx != nil && tx.db != nil && tx.meta != nil && b != nil && b.InBucket != nil && reachable != nil && b.tx == tx
+//@   ensures [checked] old(b.InBucket.root) != 0 ==> calls("(*Tx).checkInvariantProperties", tx) >= old(calls("(*Tx).checkInvariantProperties", tx)) + 1
+//@   callsite checkInvariantProperties requires [root] a_pageId == b.InBucket.root && a_reachable == reachable && a_freed == freed && a_ch == ch
+
+// the callback handed to ForEachBucket descends into every nested bucket that can be opened, with the same maps
+//@ func (*Tx).recursivelyCheckBucket$1
+//@   ensures [txsame] txsame(tx)
+//@   props C19 C07
+//@   requires tx != nil && tx.db != nil && tx.meta != nil && b != nil && reachable != nil && b.tx == tx
+//@   ensures [descend] callstotal("(*Tx).recursivelyCheckBucket") == old(callstotal("(*Tx).recursivelyCheckBucket")) ==> lastret("(*Bucket).Bucket", 0) == nil     -- no descent only if the entry could not be opened
+//@   ensures [opened] callstotal("(*Bucket).Bucket") >= old(callstotal("(*Bucket).Bucket")) + 1
+//@   callsite Bucket requires [entry] a_b == b && bytesval(a_name) == bytesval(k)
+//@   callsite recursivelyCheckBucket requires [child] a_b == lastret("(*Bucket).Bucket", 0) && a_reachable == reachable && a_freed == freed && a_ch == ch
+
+// single-page mode: nested buckets found below the start page are walked with the same maps
+//@ func (*Tx).recursivelyCheckBucketInPage
+//@   props C19 C07
+//@   requires tx != nil && tx.db != nil && tx.meta != nil && reachable != nil
+//@   ensures [txsame] txsame(tx)
+//@   callsite recursivelyCheckBucket requires [maps] a_reachable == reachable && a_freed == freed && a_ch == ch
+//@   callsite recursivelyCheckBucketInPage requires [maps] a_reachable == reachable && a_freed == freed && a_ch == ch
+//@   loop 0 invariant [txsame] txsame(tx) && tx.db != nil && tx.meta != nil
+//@   loop 1 invariant [txsame] txsame(tx) && tx.db != nil && tx.meta != nil
+
+// Tx.check: pages listed twice by the freelist are reported; in whole-file mode the root bucket is walked and
+// every page below the high-water mark that is neither reachable nor free is reported; a start page outside
+// [2, hwm) is reported and nothing is walked.
+//@ func (*Tx).check
+//@   props C19 C07
+//@   requires tx != nil && tx.db != nil && tx.meta != nil && isobject(tx.meta) && tx.root.InBucket != nil && tx.root.tx == tx && tx.db.meta0 != nil && tx.db.meta1 != nil && (metavalid(tx.db.meta0) || metavalid(tx.db.meta1))
+//@   ensures [leak] forall i common.Pgid :: cfg.pageId == 0 && 0 <= i && i < tx.meta.pgid && !has(reachable, i) && !isfreed(freed, i) ==> sent(ch) > old(sent(ch))
+//@   ensures [range] cfg.pageId != 0 && (cfg.pageId < 2 || cfg.pageId >= tx.meta.pgid) ==> sent(ch) > old(sent(ch))
+//@   ensures [walked] cfg.pageId == 0 ==> calls("(*Tx).recursivelyCheckBucket", tx) >= old(calls("(*Tx).recursivelyCheckBucket", tx)) + 1
+//@   callsite recursivelyCheckBucket requires [maps] a_reachable == reachable && a_freed == freed && a_ch == ch && a_b.InBucket == tx.root.InBucket
+//@   loop 0 invariant [same] tx.db == old(tx.db) && tx.meta == old(tx.meta) && tx.db != nil && tx.meta != nil && freed != nil && tx.root.InBucket != nil
+//@   loop 0 invariant [dup] let c := ch in (forall a int, b int :: 0 <= a && a < b && b <= rangeindex && all[a] == all[b] ==> sent(c) > old(sent(c)))
+//@   loop 0 invariant [seen] forall a int :: 0 <= a && a <= rangeindex ==> isfreed(freed, all[a])
+//@   loop 0 invariant [all] loopsame(all)
+//@   loop 1 invariant [same] tx.db == old(tx.db) && tx.meta == old(tx.meta) && tx.db != nil && tx.meta != nil && freed != nil && reachable != nil && tx.root.InBucket != nil && tx.meta.pgid == entry(tx.meta.pgid)
+//@   loop 2 invariant [same] tx.db == old(tx.db) && tx.meta == old(tx.meta) && tx.db != nil && tx.meta != nil && tx.meta.pgid == entry(tx.meta.pgid)
+//@   loop 2 invariant [leak] let c := ch in (forall j common.Pgid :: 0 <= j && j < i && !has(reachable, j) && !isfreed(freed, j) ==> sent(c) > old(sent(c)))
 
 // ---------------------------------------------------------------- C17 / C12: open, lock, initialise, close
 
@@ -555,6 +635,7 @@ package bbolt
 //@   modifies nothing
 
 //@ func (*DB).loadFreelist$1
+//@   ensures [txs] sameobjs("Tx.db") && sameobjs("Tx.meta") && sameobjs("common.Meta.pgid") && sameobjs("Bucket.tx") && sameobjs("Bucket.InBucket")
 //@   props C13
 //@   requires db != nil && db.meta0 != nil && db.meta1 != nil && (metavalid(db.meta0) || metavalid(db.meta1))
 //@   ensures [loaded] db.freelist != nil
@@ -563,6 +644,7 @@ package bbolt
 //@   ensures [same] db.meta0 == old(db.meta0) && db.meta1 == old(db.meta1) && db.data == old(db.data) && dbmeta(db) == old(dbmeta(db)) && metavalid(db.meta0) == old(metavalid(db.meta0)) && metavalid(db.meta1) == old(metavalid(db.meta1))
 
 //@ func (*DB).loadFreelist
+//@   ensures [txs] sameobjs("Tx.db") && sameobjs("Tx.meta") && sameobjs("common.Meta.pgid") && sameobjs("Bucket.tx") && sameobjs("Bucket.InBucket")
 //@   props C13
 //@   requires db != nil && db.meta0 != nil && db.meta1 != nil && (metavalid(db.meta0) || metavalid(db.meta1))
 //@   ensures [once] db.freelistLoad.done
@@ -643,6 +725,12 @@ package bbolt
 // the freelist page id in a meta is only ever set by the commit path (and by initialisation / surgery), which is what
 // lets the opaque tree contracts promise that they leave tx.meta.freelist alone
 //@ F [setfreelist.callers] props C06 C07 : callers common.(*Meta).SetFreelist subset bbolt.(*Tx).Commit, bbolt.(*Tx).commitFreelist, bbolt.(*DB).init, command.surgeryMetaUpdateFunc, surgeon.clearFreelistInMetaPage, command.(*surgeryMetaUpdateOptions).Run, command.surgeryMetaUpdateFunc$1, command.updateMetaField
+// pending pages are released in exactly one place: when a writer begins (under the writer lock and metalock, before it
+// has freed anything itself); a release in the middle of a transaction would hand the pages the transaction has just
+// freed - still referenced by the newest committed meta - back to the allocator
+//@ F [release.callers] props C01 C02 C06 C09 C10 : callers freelist.Interface.ReleasePendingPages subset bbolt.(*DB).beginRWTx
+//@ F [release.impl.callers] props C01 C02 C06 C09 C10 : callers freelist.(*shared).release subset freelist.(*shared).ReleasePendingPages, freelist.(*array).release, freelist.(*hashMap).release, freelist.array.release, freelist.hashMap.release     -- the last four are the compiler-generated promoted-method wrappers (no call site of their own: checked below)
+//@ F [releaserange.impl.callers] props C01 C02 C06 C09 C10 : callers freelist.(*shared).releaseRange subset freelist.(*shared).ReleasePendingPages, freelist.(*array).releaseRange, freelist.(*hashMap).releaseRange, freelist.array.releaseRange, freelist.hashMap.releaseRange
 //@ F [truncate.callers] props C17 C18 : callers os.(*File).Truncate subset bbolt.(*DB).grow
 //@ F [writeat.callers] props C17 C06 C01 : callers struct_writeAt.writeAt subset bbolt.(*Tx).write, bbolt.(*Tx).writeMeta, bbolt.(*DB).init
 //@ F [flock.callers] props C17 : callers bbolt.flock subset bbolt.Open
@@ -664,6 +752,7 @@ package bbolt
 //@   requires f1 != nil && f2 != nil
 //@   ensures [handles] err == nil ==> calls("os.(*File).Stat", f1) >= old(calls("os.(*File).Stat", f1)) + 1 && calls("os.(*File).Stat", f2) >= old(calls("os.(*File).Stat", f2)) + 1
 //@   ensures [nopath] callstotal("os.Stat") == old(callstotal("os.Stat"))
+//@   ensures [failfalse] err != nil ==> !same
 
 //@ func (*Tx).WriteTo
 //@   returns (n, err)
@@ -676,8 +765,10 @@ package bbolt
 //@   ensures [meta1] err == nil ==> (let k := old(wcount) + 1 in wpageid[k] == 1 && wflags[k] == common.MetaPageFlag && wlen[k] == tx.db.pageSize && wtxid[k] == tx.meta.txid - 1 && wroot[k] == tx.meta.root.root && wfreelist[k] == tx.meta.freelist && wpgid[k] == tx.meta.pgid && wvalid[k])
 //@   ensures [data] err == nil ==> sroff == 2 * tx.db.pageSize && srlen == tx.meta.pgid * tx.db.pageSize - 2 * tx.db.pageSize && copyn == srlen
 //@   ensures [source] err == nil && tx.WriteFlag == 0 ==> srfile == tx.db.file
+//@   ensures [reopened] err == nil && tx.WriteFlag != 0 && callstotal("sameFile") == old(callstotal("sameFile")) + 1 && !lastret("sameFile", 0) ==> srfile == tx.db.file     -- a reopened handle is used only if it is still the file the transaction is based on
+//@   ensures [compared] err == nil && tx.WriteFlag != 0 ==> callstotal("sameFile") == old(callstotal("sameFile")) + 1 && lastarg("sameFile", 0) == tx.db.file
 //@   ensures [unchanged] tx.meta.txid == old(tx.meta.txid) && tx.meta.pgid == old(tx.meta.pgid) && tx.meta.checksum == old(tx.meta.checksum)
-//@   skip tx.go:431 because the buffer was just made with pageSize >= 512 bytes; make() of a symbolic size is not tracked by the slice-length model after the callback havoc
+//@   skip =nopanic/makeslice because the buffer was just made with pageSize >= 512 bytes; make() of a symbolic size is not tracked by the slice-length model after the callback havoc
 
 // ---------------------------------------------------------------- C04: bucket API (error paths, what is written at the leaf)
 
@@ -877,9 +968,14 @@ package bbolt
 
 // ---------------------------------------------------------------- C15: compaction callback (per entry of the source)
 
+//@ func (*Bucket).ForEachBucket
+//@   opaque
+//@   ensures b.tx == old(b.tx) && txsame(b.tx)     -- given that the callback keeps it (proved for recursivelyCheckBucket$1); A-tree for the cursor walk
+
 //@ func (*Bucket).Bucket
 //@   opaque
-//@   ensures b.tx == old(b.tx)
+//@   ensures b.tx == old(b.tx) && txsame(b.tx)
+//@   ensures result != nil ==> result.InBucket != nil && result.tx == b.tx
 //@   modifies mapof(b.buckets), all("TxStats.CursorCount")
 
 //@ func (*Bucket).CreateBucket
